@@ -5,6 +5,7 @@ The ...Adapter classes are responsible for finding adapters.
 The ...Match classes trim the reads.
 """
 
+import itertools
 import logging
 import re
 from enum import IntFlag
@@ -1526,26 +1527,40 @@ class AdapterIndex:
 
     def _lookup_with_n(self, affix):
         # N wildcards need to be counted as mismatches (read wildcards aren’t allowed).
-        # We can thus look up an affix where we replace N with an arbitrary nucleotide.
+        # We can thus look up an affix where we replace N with a nucleotide.
         # The same goes for any other character that is not A, C, G or T.
-        affix_without_n = self._NOT_ACGT.sub("A", affix)
-        if affix_without_n == affix:
+        # Which nucleotide leads to the adapter that occurs depends on that adapter,
+        # so all replacements are tried. More than three such characters are more
+        # errors than any indexed adapter allows.
+        positions = [m.start() for m in self._NOT_ACGT.finditer(affix)]
+        if not positions or len(positions) > 3:
             return None
-        try:
-            result = self._index[affix_without_n]
-        except KeyError:
-            result = None
+        characters = list(affix)
+        candidates = []
+        for replacement in itertools.product("ACGT", repeat=len(positions)):
+            for position, character in zip(positions, replacement):
+                characters[position] = character
+            result = self._index.get("".join(characters))
+            if result is not None and result[0] not in candidates:
+                candidates.append(result[0])
 
-        if result is not None:
-            # The looked up number of matches and errors is too low if
-            # the adapter actually has an A where the N is in the query.
-            # Fix this by re-doing the alignment.
-            adapter = result[0]
+        # The looked up number of matches and errors is too low if
+        # the adapter actually has the nucleotide where the N is in the query.
+        # Fix this by re-doing the alignment.
+        best = None
+        for adapter in candidates:
             match = adapter.match_to(affix)
             # With indels, the alignment may cover only part of the affix. The
             # reported errors and score would then not describe the affix.
-            if match is not None and match.rstop - match.rstart == len(affix):
-                return adapter, match.errors, match.score
+            if match is None or match.rstop - match.rstart != len(affix):
+                continue
+            key = (match.score, -match.errors)
+            if best is None or key > best[0]:
+                best = (key, adapter, match, False)
+            elif key == best[0]:
+                best = (key, adapter, match, True)
+        if best is not None and not best[3]:
+            return best[1], best[2].errors, best[2].score
         if self._NOT_ACGTN.search(affix) is None:
             return None
 
